@@ -45,7 +45,8 @@ ASSUMPTIONS = [
 ]
 MUST_REACH = {"scenarios": 500, "hook_exceptions_raised": 100, "claims_observed": 100, "followups_delivered": 500,
               "ownership_sequences": 300, "illegal_reuse_rejected": 100, "subscriber_scenarios": 20, "predicate_scenarios": 8, "wait_for_scenarios": 4, "abandoned_wait_scenarios": 6, "rlv_scenarios": 6,
-              "packet_hook_scenarios": 6, "object_hook_scenarios": 2}
+              "packet_hook_scenarios": 6, "object_hook_scenarios": 2, "script_addon_scenarios": 20, "script_addon_faults_survived": 18,
+              "script_addon_hook_runs": 20, "script_reloads_observed": 6}
 
 _ser = UDPMessageSerializer()
 _es = Settings()
@@ -403,6 +404,166 @@ def followup(ctx, h, wit):
     if len([e for e in h.log if e[1] == "lludp"]) != 2 * len(h.addons):
         ctx.violation("hooks-not-called-for-later-message", "not every addon's hook ran for later messages",
                       dict(wit, log=h.log[:8]))
+
+
+
+# ------------------------------------------------------------------ addons loaded from script files that go bad while running
+
+SCRIPT_FAULTS = ["none", "dep_deleted", "dep_dir_becomes_file", "dep_symlink_loop", "dep_syntax_error", "dep_raises_on_import",
+                 "script_deleted", "script_syntax_error", "script_raises_on_import", "script_hook_now_raises",
+                 "script_unload_raises", "script_init_raises", "script_dir_becomes_file"]
+
+_SCRIPT_TMPL = """
+import sys
+if {deps!r} not in sys.path:
+    sys.path.insert(0, {deps!r})
+import {dep}
+from hippolyzer.lib.proxy.addons import AddonManager
+from hippolyzer.lib.proxy.addon_utils import BaseAddon
+AddonManager.hot_reload({dep})
+{module_level}
+
+class ScriptAddon(BaseAddon):
+    def handle_lludp_message(self, session, region, message):
+        import builtins
+        builtins._hv_c07_script_log.append(({version!r}, message.name))
+        {hook_body}
+
+    def handle_unload(self, session_manager):
+        {unload_body}
+
+    def handle_init(self, session_manager):
+        {init_body}
+
+addons = [ScriptAddon()]
+"""
+
+
+def check_script_addons(ctx, fault, direction_in, reliable):
+    """One addon object plus one addon loaded from a script file that hot-reloads a helper module.  While traffic flows the
+    files behind the script addon go bad in the ways files do (deleted, half-written, their directory gone, a symlink loop)
+    and the periodic reload check runs before every message: whatever the reload makes of it, every message is still
+    handed to the healthy addon and put on the wire exactly once."""
+    import builtins
+    import os
+    import shutil
+    import sys
+    import tempfile
+    from hippolyzer.lib.proxy.addons import AddonManager
+    n = ctx.counters.get("script_addon_scenarios", 0)
+    tmp = tempfile.mkdtemp(prefix="hvc07_")
+    deps = os.path.join(tmp, "deps")
+    os.mkdir(deps)
+    dep_name = f"hvc07dep_{os.getpid()}_{n}"
+    dep_path = os.path.join(deps, dep_name + ".py")
+    script_dir = os.path.join(tmp, "scripts")
+    os.mkdir(script_dir)
+    script_path = os.path.join(script_dir, f"hvc07addon_{os.getpid()}_{n}.py")
+    builtins._hv_c07_script_log = []
+    stamp = [1_600_000_000]
+
+    def write(path, text):
+        with open(path, "w") as f:
+            f.write(text)
+        stamp[0] += 10
+        os.utime(path, (stamp[0], stamp[0]))
+
+    def script(version, hook_body="return None", unload_body="pass", init_body="pass", module_level=""):
+        return _SCRIPT_TMPL.format(deps=deps, dep=dep_name, version=version, hook_body=hook_body, unload_body=unload_body,
+                                   init_body=init_body, module_level=module_level)
+
+    wit = {"fault": fault, "direction": "in" if direction_in else "out", "reliable": reliable}
+    h = Harness(1)
+    try:
+        AddonManager.HOTRELOAD_IMPORTERS.clear()
+        write(dep_path, "VALUE = 1\n")
+        write(script_path, script("v1", unload_body='raise ValueError("scripted unload")' if fault == "script_unload_raises"
+                                  else "pass"))
+        AddonManager.LAST_RELOAD = None
+        try:
+            AddonManager.load_addon_from_path(script_path, reload=True, raise_exceptions=True)
+        except Exception as e:
+            ctx.inconclusive_because(f"script addon could not be loaded: {e!r}"[:200])
+            return
+        h.rig.run_loop_once()
+
+        def one_message(stage):
+            AddonManager.LAST_RELOAD = None          # "more than two seconds later"
+            h.log.clear()
+            del builtins._hv_c07_script_log[:]
+            text, data = h.chat(direction_in, reliable)
+            exc = h.feed(direction_in, data)
+            try:
+                h.rig.run_loop_once()
+            except Exception:
+                pass
+            emitted = h.emissions_with_text(text)
+            healthy_ran = len([e for e in h.log if e[1] == "lludp"])
+            if exc is not None or emitted != 1 or healthy_ran != 1 or h.logger.logged.count(text) != 1:
+                ctx.violation("script-addon-fault:" + fault + (":raised" if exc is not None else ":not-once" if emitted != 1
+                                                                else ":healthy-addon-skipped" if healthy_ran != 1 else ":not-logged"),
+                              "after the files behind a script addon went bad, a message was not handed to the other addon and "
+                              "put on the wire exactly once",
+                              dict(wit, stage=stage, exc=repr(exc)[:300], emitted=emitted, healthy_addon_hook_runs=healthy_ran,
+                                   logged=h.logger.logged.count(text)))
+                return False
+            return True
+
+        if not one_message("before"):
+            return
+        if not builtins._hv_c07_script_log:
+            ctx.inconclusive_because("script addon's hook never ran before the fault")
+            return
+        ctx.count("script_addon_hook_runs", len(builtins._hv_c07_script_log))
+        # ---- the fault
+        if fault == "dep_deleted":
+            os.remove(dep_path)
+        elif fault == "dep_dir_becomes_file":
+            shutil.rmtree(deps)
+            write(deps, "not a directory any more")
+        elif fault == "dep_symlink_loop":
+            os.remove(dep_path)
+            os.symlink(dep_path, dep_path)
+        elif fault == "dep_syntax_error":
+            write(dep_path, "def (:\n")
+        elif fault == "dep_raises_on_import":
+            write(dep_path, "raise RuntimeError('scripted import failure')\n")
+        elif fault == "script_deleted":
+            os.remove(script_path)
+        elif fault == "script_syntax_error":
+            write(script_path, "class (:\n")
+        elif fault == "script_raises_on_import":
+            write(script_path, script("v2", module_level="raise KeyError('scripted import failure')"))
+        elif fault == "script_hook_now_raises":
+            write(script_path, script("v2", hook_body="raise ValueError('scripted hook failure')"))
+        elif fault == "script_unload_raises":
+            write(script_path, script("v2"))
+        elif fault == "script_init_raises":
+            write(script_path, script("v2", init_body="raise ValueError('scripted init failure')"))
+        elif fault == "script_dir_becomes_file":
+            shutil.rmtree(script_dir)
+            write(script_dir, "not a directory any more")
+        for stage in ("after-1", "after-2", "after-3"):
+            if not one_message(stage):
+                return
+            if any(v == "v2" for (v, _) in builtins._hv_c07_script_log):
+                ctx.count("script_reloads_observed")
+        ctx.count("script_addon_scenarios")
+        ctx.cover("script_faults", fault)
+        if fault != "none":
+            ctx.count("script_addon_faults_survived")
+        ctx.nontrivial(("script", fault, direction_in, reliable))
+        ctx.ev()
+    finally:
+        try:
+            h.close()
+        finally:
+            AddonManager.HOTRELOAD_IMPORTERS.clear()
+            for name in [k for k in sys.modules if k.startswith("hvc07")]:
+                sys.modules.pop(name, None)
+            while deps in sys.path:
+                sys.path.remove(deps)
+            shutil.rmtree(tmp, ignore_errors=True)
 
 
 # ------------------------------------------------------------------ other hook points
@@ -851,6 +1012,9 @@ def run(ctx):
             others.append(("rlv", combo, n))
     for beh in ("none", "raise"):
         others.append(("obj", beh))
+    for fault in SCRIPT_FAULTS:
+        for d in (False, True):
+            others.append(("script", fault, d, fault in ("dep_dir_becomes_file", "script_syntax_error", "script_deleted")))
     for i, o in enumerate(others):
         if not ctx.mine(i):
             continue
@@ -866,6 +1030,8 @@ def run(ctx):
             check_wait_for_abandoned(ctx, *o[1:])
         elif o[0] == "rlv":
             check_rlv(ctx, o[1], o[2])
+        elif o[0] == "script":
+            check_script_addons(ctx, *o[1:])
         else:
             check_object_hook(ctx, o[1])
     # ownership sequences
@@ -889,5 +1055,7 @@ def replay(ctx, w):
         asyncio.set_event_loop(asyncio.new_event_loop())
     if w.get("hook") == "handle_lludp_message":
         check_lludp_scenario(ctx, tuple(w["behaviours"]), w["direction"] == "in", w["reliable"])
+    elif "fault" in w:
+        check_script_addons(ctx, w["fault"], w["direction"] == "in", w["reliable"])
     elif "ops" in w:
         check_ownership(ctx, tuple(w["ops"]), Direction[w["direction"]], w["reliable"])
